@@ -8,7 +8,8 @@
   functions, run to the fix-point (the +-6 normalisation makes the reachable set finite); all 17
   constructors (so also the three unison ones, whose own closure is unbounded) are then applied
   once to every name of the fix-point;
-* measure: all ordered pairs of names(k2) for measure and the four predicates with every flag.
+* measure: all ordered pairs of names(k2) + homogeneous runs of up to 14 accidentals, for measure and
+  the four predicates with every flag value and with the flag omitted.
 """
 import itertools
 
@@ -257,7 +258,8 @@ def explore(ctx):
             ctx.guard("closure states", len(seen), 84)
             ctx.guard("closure inputs with six accidentals", ctx.counter("closure_inputs_with_six_accidentals"), 7)
     if ctx.want("measure"):
-        _PAIR_NAMES[0] = P.names(k2)
+        _PAIR_NAMES[0] = P.names(k2) + [L + a * n for L in P.LETTERS for n in range(k2 + 1, 15) for a in "#b"]
+        ctx.bound("pair_names", "every order of <= %d accidentals + homogeneous runs of up to 14 (%d names)" % (k2, len(_PAIR_NAMES[0])))
         ctx.bound("pairs", len(_PAIR_NAMES[0]) ** 2)
         ctx.product("measure", list(_PAIR_NAMES[0]), gen_pairs)
     if not ctx.only:
